@@ -4,8 +4,10 @@
    LiveRow i / LiveCell i j = the wrapper of XML row i / of XML cell j of XML row i) and its content.
    The handle kind follows the code: a wrapper fetched from the tree is Live, `.clone` (Element.clone: deepcopy under a fresh
    root) makes it Detached, `Cell()` / `Row()` / `Column()` are Detached.  Positions are read from the maps, which by C02
-   (Coh) are make_cache_map of the XML, hence [cmap].  The code modelled is the repaired one (F13 F30 F32 F110);
-   [pinned] = true gives the pinned behaviour of those four places (for the refuted statements).  Definitions only. *)
+   (Coh) are make_cache_map of the XML, hence [cmap].  The code modelled is the current one (F13 F32 F110 repaired);
+   [pinned] = true gives the behaviour of those three places before their repair (for the refuted statements);
+   [pad] = true is the CANDIDATE repair of F30 (get_cells(area) completed with empty cells), which was not applied:
+   the code as it is has pad = false.  Definitions only. *)
 From Coq Require Import List ZArith Bool Arith.
 Import ListNotations.
 Require Import Vault Row Table TableB.
@@ -93,13 +95,14 @@ Definition m_get_rows (pinned : bool) (range : option (Z * Z)) (t : tstate) : li
   | Some (y, e) => m_traverse pinned (Some (ny y t)) (Some (ny e t)) t
   | None => m_traverse pinned None None t end.
 (* Table.get_cells(coord) with coord = (x, y, z, t) or None: traverse(y, t), then Row.get_cells((x, z)) on each copy;
-   repaired (F30): when an area is given, completed with empty cells up to min(z + 1, width) *)
+   as it is: a row stored narrower than the area gives fewer cells (F30, known finding); with the candidate repair
+   ([pad]): when an area is given, completed with empty cells up to min(z + 1, width) *)
 Fixpoint pad_cells (pos width : Z) (ry : option Z) (fuel : nat) : list cobj :=
   match fuel with
   | O => []
   | S f => if pos <? width then {| c_x := Some pos; c_y := ry; c_rep := 1; c_h := Detached; c_val := empty_cell |} :: pad_cells (pos + 1) width ry f
            else [] end.
-Definition m_get_cells (pinned : bool) (area : option (Z * Z * Z * Z)) (t : tstate) : list (list cobj) :=
+Definition m_get_cells (pinned pad : bool) (area : option (Z * Z * Z * Z)) (t : tstate) : list (list cobj) :=
   let '(ox, oy, oz, oe) := match area with
                            | Some (x, y, z, e) => (Some (nx x t), Some (ny y t), Some (nx z t), Some (ny e t))
                            | None => (None, None, None, None) end in
@@ -107,7 +110,7 @@ Definition m_get_cells (pinned : bool) (area : option (Z * Z * Z * Z)) (t : tsta
   let first := match ox with Some x => Z.max 0 x | None => 0 end in
   map (fun r : robj =>
          let cells := m_row_traverse ox oz (r_y r) (snd (r_val r)) in
-         if pinned || (match area with None => true | Some _ => false end) then cells
+         if negb pad || (match area with None => true | Some _ => false end) then cells
          else cells ++ pad_cells (first + Z.of_nat (length cells)) width (r_y r) (Z.to_nat (width - first)))
       (m_traverse pinned oy oe t).
 (* Table.cells *)
@@ -155,11 +158,11 @@ Inductive getter :=
 | GRowTraverse (y : Z) (rclone : bool) (s e : option Z)           (* get_row(y, rclone).traverse(s, e) *)
 | GRowCells (y : Z) (rclone : bool).                              (* get_row(y, rclone).cells *)
 
-Definition m_get (pinned : bool) (t : tstate) (g : getter) : gres :=
+Definition m_get (pinned pad : bool) (t : tstate) (g : getter) : gres :=
   match g with
   | GGetCell x y cl keep => GCells [[m_get_cell x y cl keep t]]
   | GGetRow y cl => GRowsR [m_get_row y cl t]
-  | GGetCells area => GCells (m_get_cells pinned area t)
+  | GGetCells area => GCells (m_get_cells pinned pad area t)
   | GCellsP => GCells (m_cells pinned t)
   | GGetRows range => GRowsR (m_get_rows pinned range t)
   | GTraverse s e => GRowsR (m_traverse pinned s e t)
